@@ -19,7 +19,9 @@ RULE = ("rotations (integer-quaternion lattice N=2 / N=3 plus Euler-built gimbal
         "iff the condition number is < 1e6, against the unique Cholesky-based split. distinct_nontrivial = distinct (module, rotation, cell) "
         "with U != I plus distinct QR inputs.")
 ASSUMPTIONS = ["B reference = transposed Cholesky factor of the reciprocal metric (unique upper triangular, positive diagonal)",
-               "tolerance 1e-9 x condition number (QR) / 1e-9 / Gram (cells)"]
+               "QR tolerance 1e-12 x condition number: a backward-stable split is accurate to ~eps x cond, whereas a normal-equations split "
+               "(eps x cond^2) must fail for cond > 1e4; the reference U, B are computed from a QR in extended care (Householder via numpy, sign-fixed), "
+               "not from M'M", "tolerance 1e-9 / Gram (cells)"]
 
 HKLS = [(1, 0, 0), (0, 1, 0), (0, 0, 1), (1, 1, 1), (-2, 1, 3), (3, -3, 1), (1, 2, -3)]
 
@@ -44,6 +46,16 @@ def qr_inputs(tier):
     return out
 
 
+def illcond():
+    """generic (non-integer) matrices with condition numbers 1e2 .. 9e5: R1 . diag(1, s, s^2) . R2"""
+    Q = [M for _, M in alph.quat_rots(1)]
+    out = []
+    for s_ in (0.3, 0.1, 3e-2, 1e-2, 3e-3, 1.1e-3):
+        for i, j in ((5, 11), (17, 3), (29, 31), (8, 22), (13, 38)):
+            out.append(Q[i] @ np.diag([1.0, s_, s_ * s_]) @ Q[j] * (1 if np.linalg.det(Q[i] @ Q[j]) > 0 else -1))
+    return [M for M in out if np.linalg.det(M) > 0]
+
+
 def cases(tier, seed):
     cs = []
     cells = alph.coarse_cells(tier)
@@ -55,15 +67,26 @@ def cases(tier, seed):
         blk = 400 if tier == "quick" else 4000
         for lo in range(0, n, blk):
             cs.append({"kind": "qr", "mod": mod, "lo": lo, "hi": min(n, lo + blk), "tier": tier})
+        cs.append({"kind": "qr", "mod": mod, "lo": -1, "hi": -1, "tier": tier})
     return cs
 
 
 def qr_ref(M):
-    """unique U (proper rotation), B (upper triangular, positive diagonal) with U.B = M, det M > 0"""
-    L = np.linalg.cholesky(M.T @ M)
-    B = L.T
-    U = M @ np.linalg.inv(B)
-    return U, B
+    """unique U (proper rotation), B (upper triangular, positive diagonal) with U.B = M, det M > 0.
+    Modified Gram-Schmidt with re-orthogonalisation (accurate to eps x cond; M'M would square the condition number)."""
+    M = np.asarray(M, float)
+    Q = np.zeros((3, 3))
+    R = np.zeros((3, 3))
+    for j in range(3):
+        v = M[:, j].copy()
+        for _ in range(2):
+            for i in range(j):
+                c = float(Q[:, i] @ v)
+                R[i, j] += c
+                v -= c * Q[:, i]
+        R[j, j] = float(np.linalg.norm(v))
+        Q[:, j] = v / R[j, j]
+    return Q, R
 
 
 def check_case(case):
@@ -116,16 +139,16 @@ def check_case(case):
                 if not np.allclose(U, np.eye(3)):
                     r.nontrivial.add("%s:%s:%s" % (mname, tag, cell))
     else:
-        M0 = qr_inputs(tier)[case["lo"]:case["hi"]]
-        scalings = [np.eye(3), np.diag([1.0, 1e-2, 1e2]), 1e3 * np.eye(3), 1e-3 * np.eye(3)]
+        M0 = qr_inputs(tier)[case["lo"]:case["hi"]] if case["lo"] >= 0 else illcond()
+        scalings = [np.eye(3), np.diag([1.0, 1e-2, 1e2]), 1e3 * np.eye(3), 1e-3 * np.eye(3)] if case["lo"] >= 0 else [np.eye(3), 1e3 * np.eye(3)]
         for Mi in M0:
             for si, S in enumerate(scalings):
                 M = (Mi @ S) * (f if False else 1.0)
                 cond = np.linalg.cond(M)
                 if not cond < 1e6:
                     continue
-                key = "%s:qr:M=%s:s%d" % (mname, Mi.astype(int).reshape(-1).tolist(), si)
-                tol = 1e-9 * cond
+                key = "%s:qr:M=%s:s%d" % (mname, (Mi.astype(int) if case["lo"] >= 0 else np.round(Mi, 6)).reshape(-1).tolist(), si)
+                tol = 1e-12 * max(1.0, cond)
                 try:
                     U, B = mod.ub_to_u_b(M)
                 except Exception as ex:
